@@ -16,13 +16,11 @@ EXTENDS Bind, TLC, Json
 
 CONSTANTS TS, CS, CC, CA, NS, NC, NA, NodesC, Hooks, KAllowed, KMems, ThreadsC,
           Ops, CpuFam, NodeFam, CpuFlagsC, MemFlagsC, Pols, Lens, LoadComps,
-          MaxLen, NStripes, Stripe
+          OnlyInit
 
 VARIABLES st,        \* [aff, mp, mb, ab] as in Bind
           kb,        \* abstract kernel: policy of the test buffer
-          syscalls,  \* everything handed to the OS so far
-          last,      \* [c, r] of the last transition
-          hist
+          last       \* [c, r] of the last transition (not part of the state: VIEW hides it)
 
 TP == [ts |-> TS, cs |-> CS, cc |-> CC, ca |-> CA, ns |-> NS, nc |-> NC, na |-> NA,
        nodes |-> NodesC, hooks |-> Hooks, kallowed |-> KAllowed, kmems |-> KMems]
@@ -30,9 +28,7 @@ TP == [ts |-> TS, cs |-> CS, cc |-> CC, ca |-> CA, ns |-> NS, nc |-> NC, na |-> 
 MpDefault == [mode |-> 0, nodes |-> {}]
 Init == /\ st = [aff |-> [t \in ThreadsC |-> KAllowed], mp |-> MpDefault, mb |-> Firsttouch, ab |-> Firsttouch]
         /\ kb = MpDefault
-        /\ syscalls = <<>>
         /\ last = [c |-> [op |-> "none"], r |-> [ret |-> 0]]
-        /\ hist = <<>>
 
 (* ------------------------------------------------------------------ *)
 (* results                                                             *)
@@ -267,28 +263,35 @@ Call(op, flags, set, pol, tgt, len) == [op |-> op, flags |-> flags, set |-> set,
 TgtsFor(o) == IF o \in {"set_cpubind", "get_cpubind", "get_last_cpu_location"} THEN {"main"} ELSE ThreadsC
 MemFam(f)  == IF HasBit(f, MB_BYNODESET) THEN NodeFam ELSE CpuFam
 LensFor(o) == IF o \in {"set_area_membind", "get_area_membind", "get_area_memlocation"} THEN Lens ELSE {1}
-Calls ==
-  UNION {
-    {Call(o, f, S, 0, t, 1) : f \in CpuFlagsC, S \in CpuFam, t \in TgtsFor(o)} : o \in Ops \cap CpuSetOps}
-  \cup UNION {
-    {Call(o, f, {}, 0, t, 1) : f \in CpuFlagsC, t \in TgtsFor(o)} : o \in Ops \cap CpuGetOps}
-  \cup UNION {UNION {
-    {Call(o, f, S, p, "main", l) : S \in MemFam(f), p \in Pols, l \in LensFor(o)} : f \in MemFlagsC} : o \in Ops \cap MemSetOps}
-  \cup UNION {
-    {Call(o, f, {}, 0, "main", l) : f \in MemFlagsC, l \in LensFor(o)} : o \in Ops \cap MemGetOps}
-  \cup {Call("load", 0, {}, 0, comp, 1) : comp \in (IF "load" \in Ops THEN LoadComps ELSE {})}
-
 CallT(c) == <<c.op, c.flags, c.set, c.pol, c.tgt, c.len>>
+\* compact identity of a model state (for the emitted transition graph)
+RECURSIVE Mask(_)
+Mask(S) == IF S = {} THEN 0 ELSE LET x == CHOOSE y \in S : TRUE IN 2^x + Mask(S \ {x})
+B(b) == IF b THEN 1 ELSE 0
+Sid(s, k) == <<Mask(s.aff["main"]), IF "helper" \in ThreadsC THEN Mask(s.aff["helper"]) ELSE 0,
+               s.mp.mode, Mask(s.mp.nodes), k.mode, Mask(k.nodes),
+               B(s.mb.known), s.mb.pol, B(s.mb.anyn), Mask(s.mb.nodes),
+               B(s.ab.known), s.ab.pol, B(s.ab.anyn), Mask(s.ab.nodes)>>
 
-Next == /\ Len(hist) < MaxLen
-        /\ \E c \in Calls : \E r \in Do(st, c) :
+InitSt == [aff |-> [t \in ThreadsC |-> KAllowed], mp |-> MpDefault, mb |-> Firsttouch, ab |-> Firsttouch]
+
+Step(c) == \E r \in Do(st, c) :
              /\ last' = [c |-> c, r |-> r]
              /\ st' = NextSt(TP, st, c, r)
              /\ kb' = r.kb
-             /\ syscalls' = syscalls \o r.sys
-             /\ hist' = Append(hist, CallT(c))
 
-Spec == Init /\ [][Next]_<<st, kb, syscalls, last, hist>>
+\* one named action per family of entry points; OnlyInit restricts the (huge) validation alphabets to the initial state
+SetCpu == \E o \in Ops \cap CpuSetOps : \E f \in CpuFlagsC : \E S \in CpuFam : \E t \in TgtsFor(o) : Step(Call(o, f, S, 0, t, 1))
+GetCpu == \E o \in Ops \cap CpuGetOps : \E f \in CpuFlagsC : \E t \in TgtsFor(o) : Step(Call(o, f, {}, 0, t, 1))
+SetMem == \E o \in Ops \cap MemSetOps : \E f \in MemFlagsC : \E S \in MemFam(f) : \E p \in Pols : \E ln \in LensFor(o) :
+            Step(Call(o, f, S, p, "main", ln))
+GetMem == \E o \in Ops \cap MemGetOps : \E f \in MemFlagsC : \E ln \in LensFor(o) : Step(Call(o, f, {}, 0, "main", ln))
+Load   == "load" \in Ops /\ \E comp \in LoadComps : Step(Call("load", 0, {}, 0, comp, 1))
+
+Next == /\ OnlyInit => (st = InitSt /\ kb = MpDefault)
+        /\ (SetCpu \/ GetCpu \/ SetMem \/ GetMem \/ Load)
+
+Spec == Init /\ [][Next]_<<st, kb, last>>
 View == <<st, kb>>
 
 (* ------------------------------------------------------------------ *)
@@ -296,21 +299,20 @@ View == <<st, kb>>
 (* ------------------------------------------------------------------ *)
 \* every transition of the constructive model satisfies the oracle relation
 StepOK == Assert(Rel(TP, st, last'.c, last'.r, TRUE), <<"model step violates Bind!Rel", st, last'>>)
-\* whatever reached the OS is a non-empty subset of the complete set
-SyscallsLegal == \A i \in 1..Len(syscalls) :
-                   LET s == syscalls[i] IN
-                   IF s.k = "setaff" THEN s.mask # {} /\ s.mask \subseteq CC
-                   ELSE s.mask \subseteq NC
-\* foreign topologies have no system effect at all
-ForeignInert == ~TS => syscalls = <<>> /\ st.aff = [t \in ThreadsC |-> KAllowed] /\ st.mp = MpDefault
+\* whatever reaches the OS is a non-empty subset of the complete set
+SysLegal(sys) == \A i \in 1..Len(sys) :
+                   IF sys[i].k = "setaff" THEN sys[i].mask # {} /\ sys[i].mask \subseteq CC
+                   ELSE sys[i].mask \subseteq NC
+StepLegal == Assert(SysLegal(last'.r.sys), <<"an illegal set reaches the OS", last'>>)
+\* a call that fails without having reached the OS changes nothing
+StepClean == Assert((last'.r.ret = -1 /\ last'.r.sys = <<>>) => (st' = st /\ kb' = kb), <<"a refused call changed the state", last'>>)
+\* foreign topologies have no system effect at all (state invariant)
+ForeignInert == ~TS => st.aff = InitSt.aff /\ st.mp = MpDefault /\ kb = MpDefault
 AffLegal == \A t \in ThreadsC : st.aff[t] # {} /\ st.aff[t] \subseteq KAllowed
-\* EINVAL is decided before the OS is touched
-EinvalEarly == (last.r.ret = -1 /\ last.c.op # "none" /\ last.r.err = "EINVAL" /\ last.c.op \in (CpuSetOps \cup CpuGetOps))
-                 => last.r.sys = <<>>
+TypeOK == /\ DOMAIN st.aff = ThreadsC
+          /\ st.mb.known \in BOOLEAN /\ st.ab.known \in BOOLEAN
 
-\* stripe number of a history (cheap, deterministic)
-RECURSIVE HSum(_)
-HSum(h) == IF h = <<>> THEN 0
-           ELSE LET o == Head(h) IN (o[2] * 7 + o[4] * 3 + o[6] + Len(o[1]) + Cardinality(o[3]) * 5 + Len(o[5])) + 3 * HSum(Tail(h))
-EmitEdge == StepOK /\ ((HSum(hist') % NStripes = Stripe) => PrintT(<<"EDGE", ToJson(hist')>>))
+EmitInit == (last.c.op = "none") => PrintT(<<"INIT", ToJson(Sid(st, kb))>>)
+EmitEdge == StepOK /\ StepLegal /\ StepClean
+            /\ PrintT(<<"EDGE", ToJson([s |-> Sid(st, kb), d |-> Sid(st', kb'), c |-> CallT(last'.c)])>>)
 =============================================================================
